@@ -190,6 +190,24 @@ func (s *Sched) YieldHere(label string) bool {
 	return false
 }
 
+// YieldCurrent parks the calling goroutine on behalf of the currently released task even when it is
+// not that task's own goroutine: dolt runs some operations of a session in a helper goroutine while
+// the session's goroutine waits for it (dolt_push, dolt_fetch), and a seam reached there belongs to
+// the released task. Only one goroutine may hold a task's park at a time: a second helper of the
+// same task that reaches a seam meanwhile runs on.
+func (s *Sched) YieldCurrent(label string) bool {
+	s.mu.Lock()
+	t := s.cur
+	if t == nil || t.Quiet || t.parked || t.finished {
+		s.mu.Unlock()
+		return false
+	}
+	t.parked, t.blocked, t.label = true, false, label
+	s.mu.Unlock()
+	<-t.run
+	return true
+}
+
 // YieldBlocked is YieldHere for the retry loop of a blocking request that cannot be granted now (a
 // flock somebody else holds): the task is parked and is not released again until another task has
 // been released or simulated time has passed since its last release.
